@@ -28,6 +28,18 @@ Theorem C05_until_fixed_while_tripped : forall c ops s,
 Proof. exact shield_exec. Qed.
 Print Assumptions C05_until_fixed_while_tripped.
 
+(* k requests arriving together: each runs activateFallback as one critical section under the breaker's lock, so the
+   burst is k consecutive Arrive steps -- every theorem of this file covers it -- and in particular all k are answered
+   by the fallback inside the fallback period, and all k are passed on in standby, with the breaker unchanged *)
+Theorem C05_burst : forall c s k,
+  fst (burst c s k) = exec (step c) s (repeat (Arrive None) k) /\
+  snd (burst c s k) = passes (run_from (step c) s (repeat (Arrive None) k)) /\
+  (state s = Tripped -> now s < until s -> burst c s k = (s, 0)) /\
+  (state s = Standby -> burst c s k = (s, Z.of_nat k)).
+Proof. intros c s k. destruct (burst_sequential c k s) as [A B]. split; [exact A|]. split; [exact B|].
+  split; [apply burst_shielded|apply burst_standby]. Qed.
+Print Assumptions C05_burst.
+
 (* in standby every request is passed through, and nothing changes *)
 Theorem C05_standby_passes : forall c s h, state s = Standby -> step c s (Arrive h) = (s, Pass).
 Proof. exact standby_passes. Qed.
